@@ -346,6 +346,28 @@ Exec(db, op, ns, a) ==
     [] op = "listCollections" -> R([Res EXCEPT !.count = Cardinality({n \in DOMAIN db : DbOf(n) = ns})], db, <<>>)
 
 (* ---------------------------------------------------------------------- *)
+(* TTL expiry (C19, transaction.go Expire)                                 *)
+(* A pass at time `now` (a date value) removes a document iff its          *)
+(* collection has a TTL index (exp >= 0 seconds) on a field whose value in *)
+(* that document is a date, or an array containing a date, older than      *)
+(* now - exp.  exp = 0 stands for "immediately".                           *)
+(* ---------------------------------------------------------------------- *)
+DateMinus(now, secs) ==
+  LET x == ScaledAdd(ToScaled(now), [neg |-> TRUE, D |-> NatDigits(secs) \o <<0, 0, 0>>, s |-> 0])
+      n == FromScaled("i64", x, 0)
+  IN [t |-> "date", neg |-> n.neg, d |-> n.d, e |-> n.e]
+OlderDate(v, cutoff) == v.t = "date" /\ Cmp(v, cutoff) < 0
+ExpiredBy(doc, def, now) ==
+  LET v == Get(doc, PathOf(def.key.f[1][1]))  cutoff == DateMinus(now, def.exp) IN
+  OlderDate(v, cutoff) \/ (v.t = "arr" /\ \E i \in 1..Len(v.a) : OlderDate(v.a[i], cutoff))
+TTLDefs(coll) == {def \in coll.idx : def.exp >= 0}
+ExpiredDoc(coll, doc, now) == \E def \in TTLDefs(coll) : ExpiredBy(doc, def, now)
+ExpireColl(coll, now) == [coll EXCEPT !.docs = FilterSeq(LAMBDA d : ~ExpiredDoc(coll, d, now), @)]
+ExpireDb(db, now) == [n \in DOMAIN db |-> ExpireColl(db[n], now)]
+(* the delete events of one namespace, in natural order *)
+ExpireEvents(db, n, now) == LET gone == FilterSeq(LAMBDA d : ExpiredDoc(db[n], d, now), db[n].docs) IN [k \in 1..Len(gone) |-> EvDelete(n, gone[k])]
+
+(* ---------------------------------------------------------------------- *)
 (* change log: replay and update descriptions (C08)                        *)
 (* ---------------------------------------------------------------------- *)
 (* equality of documents up to field order, recursively *)
